@@ -7,7 +7,6 @@
    The reader is a total function on arbitrary byte strings; the file length is
    [length file].  Outcomes:
      Refused m  : diagnostic + exit status 1 (libError + exitFailure, libFatal, comsgFatal)
-     Fault      : bug("Index[Name[i]] != i") in libChkHeader -- "Compiler bug" + abort
      Loaded h   : the header is accepted; sections are then fetched on demand
                   by [get_section]. *)
 Require Import ZArith List Lia Bool.
@@ -81,10 +80,11 @@ Definition index_of (P : lib_params) (h : hdr) (n : Z) : Z :=
 Inductive refusal :=
 | ShortHeader      (* fread of the header came up short: libFatal LibBadSectHdr *)
 | BadMagic | BadVersion | BadNumSect | BadSectName | BadSectHdr
+| DupSect          (* two table entries carry one name: Index[Name[i]] != i, libError LibSectDup *)
 | SectBeyondFile   (* the last section ends after the end of the file *)
 | ShortSection.    (* fread of a section came up short: libFatal LibSectOffset *)
 
-Inductive chk_result := ChkOk | ChkRefuse (m : refusal) | ChkBug.
+Inductive chk_result := ChkOk | ChkRefuse (m : refusal).
 
 (* "Check the section names" loop of libChkHeader *)
 Fixpoint chk_names (P : lib_params) (h : hdr) (i : Z) (ss : list sect) : chk_result :=
@@ -92,7 +92,7 @@ Fixpoint chk_names (P : lib_params) (h : hdr) (i : Z) (ss : list sect) : chk_res
   | [] => ChkOk
   | s :: r =>
     if lp_name_limit P <=? s_name s then ChkRefuse BadSectName
-    else if negb (index_of P h (s_name s) =? i) then ChkBug
+    else if negb (index_of P h (s_name s) =? i) then ChkRefuse DupSect
     else chk_names P h (i + 1) r
   end.
 
@@ -121,7 +121,7 @@ Definition chk_header (P : lib_params) (h : hdr) : chk_result :=
   | r => r
   end.
 
-Inductive outcome := Refused (m : refusal) | Fault | Loaded (h : hdr).
+Inductive outcome := Refused (m : refusal) | Loaded (h : hdr).
 
 Definition read_lib (P : lib_params) (file : bytes) : outcome :=
   if Z.of_nat (length file) <? lp_hdr_size P then Refused ShortHeader
@@ -130,7 +130,6 @@ Definition read_lib (P : lib_params) (file : bytes) : outcome :=
   | Some (h, _) =>
     match chk_header P h with
     | ChkRefuse m => Refused m
-    | ChkBug => Fault
     | ChkOk =>
       if 0 <? h_num h then
         let sl := nth (Z.to_nat (h_num h - 1)) (h_sects h) (dflt_sect P) in
